@@ -56,7 +56,8 @@ PARTIAL = [
     "(C20_poison_surfaces_in_inventory). Probed on the real crate in child processes (user Buf::remaining panicking under the lock). "
     "FINDING C20-1 (RecvStream::drop unwrapped the poisoned lock => process abort) was reported and is repaired in /repo (2601b84); "
     "reverting it makes `drop_unwrap_paths` non-empty (proof breaks) and the probe abort.",
-    "REAL THREADS ARE SAMPLED, NOT PROVED: the threaded harness runs real parallel executions (std threads); each recorded global order "
+    "REAL THREADS ARE SAMPLED, NOT PROVED: the threaded harness runs real parallel executions (std threads, CLIENT role only; the "
+    "deterministic injection runs cover client and server); each recorded global order "
     "is checked to be a linearisation accepted by the proved models (pre-states, outputs, API results, final snapshot) and to have "
     "contiguous lock sections; schedules not drawn are covered only by the theorems, i.e. at lock granularity and given A. Memory safety "
     "and data-race freedom of the Rust code are the compiler's guarantees (Send/Sync, no `unsafe` in the modelled files: inventory "
